@@ -1,5 +1,6 @@
 import CwPlus.Lemmas.Ics20
 import CwPlus.Lemmas.Ics20Migrate
+import CwPlus.Lemmas.Ics20Env
 /-!
 # C12 — cw20-ics20: channel balance tracks vouchers exactly; error acks change nothing
 
@@ -7,6 +8,22 @@ Histories (`runG`) are arbitrary lists of ops — user transfers (native, cw20 `
 calls), incoming packets with arbitrary fields, acknowledgements / timeouts (at most one per packet in
 flight, with the original data: `admissible`), governance ops and migrations — with every payout /
 refund sub-call failing or succeeding arbitrarily (`fail` flag, receiver validity, faulty tokens).
+
+## Environment assumptions (`structure EnvAssumptions`, Lemmas/Ics20Env.lean)
+
+* **E1 `hook_only_from_send`** — a real cw20 token contract calls `ExecuteMsg::Receive` only from its own
+  `Send`, after crediting the contract; a direct `Receive` never has a real token as sender.
+* **E2 `never_calls_itself`** — the ics20 contract is never the sender of a transfer.
+* **E3 `native_not_cw20`** — no native denomination has the form `cw20:…`.
+
+The model's `World.exec` refuses transactions violating E1 / E2 (they are no-ops of `runG`);
+`outstanding_identity_explicit_env` restates the accounting identity over the unguarded semantics
+`runGRaw` with `EnvAssumptions` as an explicit hypothesis.  E3 is what makes the model's structural keys
+`(channel, native d | cw20 addr)` faithful to the contract's string keys `(channel, denom string)`:
+`storage_keys_faithful` (explicit hypothesis; `render_collision` shows the collision without it).
+`success_ack_effects` needs "the receiver is not the contract itself" and has it as the explicit
+hypothesis `hrs`.  IBC core's guarantee (one acknowledgement or timeout per sent packet, original
+data) is the explicit predicate `admissible` inside `runG`.
 -/
 namespace CwPlus.Props.C12
 open CwPlus CwPlus.Ics20
@@ -585,6 +602,34 @@ theorem error_ack_queries_unchanged {w w' : World} {blk : Block} {p : PacketIn} 
   generalize w'.st.replyArgs = r at e
   subst e
   exact ⟨fun _ => rfl, rfl, rfl, rfl, fun _ => rfl, fun _ _ => rfl, fun d => by cases d <;> rfl, fun _ _ => rfl, fun _ _ => rfl⟩
+
+/-! ## Explicit environment assumptions -/
+
+/-- **C12, outstanding_identity with explicit environment**: the accounting identity
+`outstanding + failedOrTimedOut + redeemed = sent` on every history of the *unguarded* semantics that
+satisfies the environment assumptions E1–E3. -/
+theorem outstanding_identity_explicit_env (w : World) (ops : List (Block × Op))
+    (henv : EnvAssumptions w.self w.tokens ops) (c : String) (d : Denom) :
+    let wg := runGRaw (w, Ghost.init w) ops
+    outstanding wg.1.st c d + wg.2.failed (c, d) + wg.2.redeemed (c, d) = wg.2.sent (c, d) := by
+  intro wg
+  have : wg = runG (w, Ghost.init w) ops := runGRaw_eq_runG (w, Ghost.init w) ops henv
+  rw [this]
+  exact outstanding_identity w ops c d
+
+/-- **C12, storage_keys_faithful** (where E3 is needed): on every history satisfying the environment
+assumptions — in particular no native denomination attached to a transfer starts with `cw20:` — from a
+well-formed state whose stored native denominations satisfy E3 (e.g. a fresh instantiation), the
+books have exactly one entry per *storage* key: two entries under the same channel whose
+denominations render to the same string (`Amount::denom()`, what `Channel{id}` reports and what the
+contract uses as map key) are the same entry.  Hence every per-`(channel, denomination)` statement
+about the model is a statement about the contract's `CHANNEL_STATE[(channel, denom string)]`. -/
+theorem storage_keys_faithful (w : World) (ops : List (Block × Op))
+    (henv : EnvAssumptions w.self w.tokens ops) (hwf : WellFormed w.st) (hk : KeysFaithful w.st.chan)
+    {e e' : Key × ChanState} (he : e ∈ (runRaw w ops).st.chan) (he' : e' ∈ (runRaw w ops).st.chan)
+    (hc : e.1.1 = e'.1.1) (hr : e.1.2.render = e'.1.2.render) : e = e' := by
+  obtain ⟨h1, h2⟩ := runRaw_keysFaithful w ops henv hwf hk
+  exact entries_eq_of_same_storage_key h1.1 h2 he he' hc hr
 
 /-! ## Non-vacuity: concrete histories -/
 
